@@ -448,7 +448,7 @@ func genEncRec(r *Rng, mode string, p EncProfile) EncRec {
 	}
 	if mode == "color" {
 		cfg.TagWidth = 1 + r.Intn(5)
-		cfg.MinWidth = []int{36, 36, 16, 50}[r.Intn(4)]
+		cfg.MinWidth = []int{36, 36, 16, 50, 200, 165}[r.Intn(6)]
 	}
 	cls := p.TextClass
 	if r.Chance(30) {
